@@ -265,18 +265,32 @@ def frag_removers():
     if len(bodies) != 2:
         raise ValueError("expected the two CounterRemover wrapper bodies, found %d" % len(bodies))
     shapes = set()
+    rm = r"data->(dispatcher\.removeListener\(data->event,data->handle\)|callbackList\.remove\(data->handle\));"
+    call = r"data->listener\(std::forward<Args>\(args\)\.\.\.\);"
     for b in bodies:
         n = BoolExpr.norm(b)
-        m = re.fullmatch(r"if\((--data->triggerCount|data->triggerCount--)(<=|<|==)(-?\d+)\)\{data->(dispatcher\.removeListener\(data->event,data->handle\)|callbackList\.remove\(data->handle\));\}data->listener\(std::forward<Args>\(args\)\.\.\.\);", n)
-        if not m:
-            raise ValueError("CounterRemover wrapper body not recognised: " + n)
-        shapes.add((m.group(1).startswith("--"), m.group(2), int(m.group(3))))
+        # shape A: if(--count OP T) { remove }  listener(...)
+        m = re.fullmatch(r"if\(--data->triggerCount(<=|<|==)(-?\d+)\)\{" + rm + r"\}" + call, n)
+        if m:
+            shapes.add(("A", m.group(1), int(m.group(2))))
+            continue
+        # shape B: if(count OP T) { remove } else { --count; }  listener(...)
+        m = re.fullmatch(r"if\(data->triggerCount(<=|<|==)(-?\d+)\)\{" + rm + r"\}else\{--data->triggerCount;\}" + call, n)
+        if m:
+            shapes.add(("B", m.group(1), int(m.group(3 - 1))))
+            continue
+        raise ValueError("CounterRemover wrapper body not recognised: " + n)
     if len(shapes) != 1:
         raise ValueError("the two CounterRemover wrappers differ: %r" % (shapes,))
-    pre, op, thr = shapes.pop()
-    text += "/-- `if(--data->triggerCount %s %d)`: the value tested is the count %s the decrement -/\n" % (op, thr, "after" if pre else "before")
-    text += "def testsAfterDecrement : Bool := %s\n" % ("true" if pre else "false")
-    text += "def due (tested : Int) : Bool := decide (tested %s %d)\n" % (CMP_LEAN[op], thr)
+    shape, op, thr = shapes.pop()
+    text += "/-- `--x` on a 32-bit `int` (wraps at INT_MIN; the real code has undefined behaviour there) -/\n"
+    text += "def dec32 (x : Int) : Int := if x = -2147483648 then 2147483647 else x - 1\n\n"
+    if shape == "A":
+        text += "/-- one call of the wrapper on the stored count: `if(--triggerCount %s %d) remove;` - (is the removal due?, new count) -/\n" % (op, thr)
+        text += "def call (c : Int) : Bool × Int := (decide (dec32 c %s %d), dec32 c)\n" % (CMP_LEAN[op], thr)
+    else:
+        text += "/-- one call of the wrapper on the stored count: `if(triggerCount %s %d) remove; else --triggerCount;` - (is the removal due?, new count) -/\n" % (op, thr)
+        text += "def call (c : Int) : Bool × Int := if c %s %d then (true, c) else (false, dec32 c)\n" % (CMP_LEAN[op], thr)
     text += "/-- the listener is removed (when due) before the wrapped listener is called, and the wrapped listener is called on every call -/\n"
     text += "def removeBeforeCall : Bool := true\n\n"
     src2 = strip_comments(read_src("include/eventpp/utilities/conditionalremover.h"))
@@ -290,4 +304,45 @@ def frag_removers():
     text += "/-- ConditionalRemover: `if(shouldRemove(args...)) remove; listener(args...)` — one evaluation per call, removal before the call -/\n"
     text += "def condEvaluatedOnce : Bool := true\n\n"
     text += "end Evp.Gen.Remover\n"
+    return True, text, ""
+
+
+@fragment("QueueFrag")
+def frag_queue():
+    """eventqueue.h / hetereventqueue.h: order of the two reads of emptyQueue(), of doCanProcess(), and whether
+    ~DisableQueueNotify decrements under queueListMutex"""
+    out = {}
+    for rel, key in (("include/eventpp/eventqueue.h", "homo"), ("include/eventpp/hetereventqueue.h", "heter")):
+        src = strip_comments(read_src(rel))
+        body = strip_comments(find_function_body(src, r"bool\s+emptyQueue\(\)\s*const\s*\{"))
+        body = body.replace('EVENTPP_VERIF_POINT("q.empty");', "")
+        e = BoolExpr.norm(single_return_expr(body))
+        if e == "queueList.empty()&&(queueEmptyCounter.load(std::memory_order_acquire)==0)":
+            out[key + "_listFirst"] = True
+        elif e == "(queueEmptyCounter.load(std::memory_order_acquire)==0)&&queueList.empty()":
+            out[key + "_listFirst"] = False
+        else:
+            raise ValueError("emptyQueue() not recognised in %s: %s" % (rel, e))
+        c = BoolExpr.norm(single_return_expr(find_function_body(src, r"bool\s+doCanProcess\(\)\s*const\s*\{")))
+        if c == "!emptyQueue()&&doCanNotifyQueueAvailable()":
+            out[key + "_emptyFirst"] = True
+        elif c == "doCanNotifyQueueAvailable()&&!emptyQueue()":
+            out[key + "_emptyFirst"] = False
+        else:
+            raise ValueError("doCanProcess() not recognised in %s: %s" % (rel, c))
+        if key != "homo":
+            continue   # the heterogeneous queue has no DisableQueueNotify
+        d = BoolExpr.norm(find_function_body(src, r"~DisableQueueNotify\(\)\s*\{"))
+        tail = "if(queue->doCanNotifyQueueAvailable()&&!queue->emptyQueue()){queue->queueListConditionVariable.notify_one();}"
+        if d == "--queue->queueNotifyCounter;" + tail:
+            out[key + "_dqnLocked"] = False
+        elif re.fullmatch(r"\{std::lock_guard<(typename)?\w*Mutex>\w+\(queue->queueListMutex\);--queue->queueNotifyCounter;\}" + re.escape(tail), d):
+            out[key + "_dqnLocked"] = True
+        else:
+            raise ValueError("~DisableQueueNotify not recognised in %s: %s" % (rel, d))
+    text = GEN_HEADER % "eventqueue.h / hetereventqueue.h emptyQueue, doCanProcess, ~DisableQueueNotify"
+    text += "namespace Evp.Gen.Queue\n\n"
+    for k, v in out.items():
+        text += "def %s : Bool := %s\n" % (k, "true" if v else "false")
+    text += "\nend Evp.Gen.Queue\n"
     return True, text, ""
